@@ -233,6 +233,15 @@ def raw_def_call(s, op):
 
 def index_from_own_range(coll, idx):
     """idx is drawn from 0..len(coll), enumerate over coll, position over coll"""
+    if idx[0] == "phi":
+        # a variable that only ever holds such indices (`let mut best = None; for (i, x) in v.iter().enumerate() { .. best = Some(i) }`):
+        # every assigned value is in range; the loop-carried alternative is an earlier value of the same variable
+        # (payload convention: an Option-typed variable shows its None as an alternative; the index is read under Some)
+        alts = [a for a in idx[1] if a[0] not in ("loop", "carried", "undef") and not (a[0] == "agg" and a[1].endswith("option::Option") and a[2] == "None")]
+        rs = [index_from_own_range(coll, a) for a in alts]
+        if alts and all(rs):
+            return "a variable holding only: " + rs[0]
+        return None
     def same(x):
         return unmut_all(x) == coll or (x[0] == "call" and x[1].endswith("::deref") and unmut_all(x[2][0]) == coll)
     if idx[0] == "call" and itm(idx[1], "next"):
